@@ -178,7 +178,6 @@ Ltac pq J I Epc :=
   unfold set_pc; simpl;
   try match goal with E : m_state (mm _) = _ |- _ => rewrite E end.
 
-Ltac rem := match goal with |- ?g => idtac "REM" g end.
 
 Ltac old_ud Qud :=
   let H := fresh in
@@ -627,6 +626,81 @@ Proof.
   - exists TMain. simpl. unfold main_step. rewrite Epc. left. meas Hnf. rewrite Epc. lia.
   - exists TMain. simpl. unfold main_step. rewrite Epc. left. meas Hnf. rewrite Epc. lia.
   - exists TMain. simpl. unfold main_step. rewrite Epc. left. meas Hnf. rewrite Epc. lia.
+Qed.
+
+
+Definition nocrash (h : list ev) : Prop := forall e, In e h -> e <> ECrash.
+
+Lemma prog_lex : forall M m h, major (run sc h) <= M -> minor (run sc h) <= m ->
+  exists h', nocrash h' /\ terminal (run sc (h ++ h')) = true.
+Proof.
+  induction M as [M IHM] using lt_wf_ind.
+  induction m as [m IHm] using lt_wf_ind.
+  intros h HM Hm.
+  destruct (d_full (dk (run sc h))) eqn:Ef.
+  - exists []. split; [intros e []|]. rewrite app_nil_r. exact Ef.
+  - destruct (dec (run sc h) (inv2_run sc Hwf h) (pinv_run h) Ef) as [t Hlt].
+    assert (Hrun : run sc (h ++ [EStep t]) = tstep sc (run sc h) t) by apply run_snoc.
+    assert (Hext : forall h', nocrash h' /\ terminal (run sc ((h ++ [EStep t]) ++ h')) = true ->
+              exists h'', nocrash h'' /\ terminal (run sc (h ++ h'')) = true).
+    { intros h' [Hn Ht]. exists (EStep t :: h'). split.
+      - intros e [<-|Hin]; [discriminate|apply Hn; exact Hin].
+      - rewrite <- app_assoc in Ht. exact Ht. }
+    destruct Hlt as [Hlt|[Heq Hlt]].
+    + destruct (IHM (major (tstep sc (run sc h) t)) ltac:(lia)
+                    (minor (tstep sc (run sc h) t)) (h ++ [EStep t])) as [h' Hh'].
+      * rewrite Hrun. lia.
+      * rewrite Hrun. lia.
+      * apply Hext with h'. exact Hh'.
+    + destruct (IHm (minor (tstep sc (run sc h) t)) ltac:(lia) (h ++ [EStep t])) as [h' Hh'].
+      * rewrite Hrun. lia.
+      * rewrite Hrun. lia.
+      * apply Hext with h'. exact Hh'.
+Qed.
+
+(* every history can be extended, without any further stop, to one that
+   marks the channel fully resolved *)
+Theorem progress : forall h, exists h',
+  nocrash h' /\ terminal (run sc (h ++ h')) = true.
+Proof. intros h. eapply prog_lex; eauto. Qed.
+
+
+(* The window of (fixed) finding C13-F1: a stop right after a resolver's final
+   Checkpoint(resolved = true), before log.ResolveContract.  After the
+   restart relaunchResolvers hands the reloaded contract to resolveContract,
+   which removes it from the log and signals the arbitrator. *)
+Lemma resolved_contract_recovered : forall h k r,
+  find_spec sc k = Some r ->
+  d_full (dk (run sc h)) = false -> d_state (dk (run sc h)) = SWaiting ->
+  d_con (dk (run sc h)) k = Some (length (r_stages r)) ->
+  let s' := run sc (h ++ [ECrash; EStep TMain; EStep (TRes k)]) in
+  d_con (dk s') k = None /\ m_sigs (mm s') = 1
+  /\ (forall k', k' <> k -> d_con (dk s') k' = d_con (dk (run sc h)) k').
+Proof.
+  intros h k r Hf Hnf Hst Hc.
+  replace (h ++ [ECrash; EStep TMain; EStep (TRes k)])
+    with (((h ++ [ECrash]) ++ [EStep TMain]) ++ [EStep (TRes k)])
+    by (repeat rewrite <- app_assoc; reflexivity).
+  cbv zeta. rewrite !run_snoc.
+  set (s := run sc h) in *.
+  assert (Hnc : no_contracts sc (dk s) = false).
+  { destruct (no_contracts sc (dk s)) eqn:E; auto.
+    unfold no_contracts in E. rewrite forallb_forall in E.
+    destruct (find_spec_in sc k r Hf) as [Hin Hk].
+    specialize (E r Hin). rewrite Hk, Hc in E. discriminate. }
+  assert (Hrl : relaunch sc (dk s) k = Some (length (r_stages r), false))
+    by (unfold relaunch; rewrite Hf, Hc; reflexivity).
+  assert (Hn : nth_error (r_stages r) (length (r_stages r)) = None)
+    by (apply nth_error_None; lia).
+  assert (H2 : main_step sc (step sc s ECrash)
+               = mkSt (dk s) (mkMem SWaiting MIdle (relaunch sc (dk s)) (sc_anchor sc)
+                                    0 false false None) (outs s)).
+  { simpl. unfold restart. rewrite Hnf, Hst. simpl.
+    unfold main_step. simpl. rewrite Hnc. reflexivity. }
+  cbn [step tstep]. cbn [step] in H2. rewrite H2.
+  unfold res_step. cbn [mm dk m_res]. rewrite Hrl, Hf, Hn. simpl.
+  split; [apply upd_same|]. split; [reflexivity|].
+  intros k' Hne. apply upd_other. exact Hne.
 Qed.
 
 End Progress.
